@@ -90,7 +90,7 @@ class Check(PropertyCheck):
                     fr = valid_frame(inst, name, seq, rng, rng.choice(["lo", "rand", "rand", "hi"]))
                     if len(fr) > 90:
                         fr = valid_frame(inst, name, seq, rng, "lo")
-                    cases.append({"v": v, "pending": pname, "data": fr.hex(), "kind": "valid"})
+                    cases.append({"v": v, "pending": pname, "data": fr.hex(), "kind": "valid", "name": name})
                     for n in range(len(fr)):
                         cases.append({"v": v, "pending": pname, "data": fr[:n].hex(), "kind": "trunc"})
                     nflip = 6 if tier == "quick" else 30
@@ -123,6 +123,13 @@ class Check(PropertyCheck):
                 hdr = bytes([0, 0x80, oid]) if v == 4 else bytes([0, 0x80, 0xFF, 0x00, oid]) if v < 8 else bytes([0, 0x80, 0x01, oid & 0xFF, oid >> 8])
                 for pname in (None, "getEui64"):
                     cases.append({"v": v, "pending": pname, "data": (hdr + body).hex(), "kind": "foreign-id"})
+                # ... and right afterwards, in the same process, the version that DOES define the id handles a proper frame
+                # of that command (the host has switched versions meanwhile): it must be decoded and dispatched as ever
+                if ov in versions and ov != v:
+                    good = valid_frame(oinst, oname, 0, rng, "rand")
+                    if len(good) <= 90:
+                        opend = oname if not (oname.endswith("Handler") or oname == "invalidCommand") else None
+                        cases.append({"v": ov, "pending": opend, "data": good.hex(), "kind": "valid-after-foreign"})
             # the same frame in ANOTHER version's header layout (an NCP / a bootstrap handler speaking the other format): a
             # legacy-layout handler meets the extended layout [seq, fc, 0xFF, 0x00, id] -- 0xFF is not a frame id of its
             # version, nothing may be dispatched or completed -- and an extended-layout handler meets the legacy one
@@ -292,6 +299,21 @@ class Check(PropertyCheck):
                 return f"pending command (seq 0, frame id {want:#x}) completed by a frame with seq {seq}, frame id {got:#x}"
         if f["cbs"] and f["p"] is not None:
             return "one frame both completed a command and was delivered as a callback"
+        if case["kind"] == "valid" and case.get("name") == "invalidCommand" and case["pending"] is not None \
+                and bytes.fromhex(case["data"])[0] == 0:
+            # the NCP's "invalid command" reply under the pending call's sequence number: that call raises the invalid-command
+            # error (it is never completed with a payload, and never left to time out)
+            if f["p"] is None or f["p"] != ["raise", "InvalidCommandError"]:
+                return (f"an invalidCommand reply under the sequence number of the pending {case['pending']} did not make that call "
+                        f"raise the invalid-command error: {f['p']}")
+        if case["kind"] == "valid-after-foreign":
+            # a proper frame of the active version: it completes its pending command, or is delivered to the callbacks once
+            if case["pending"] is not None and (f["p"] is None or f["p"][0] != "ret"):
+                return (f"a proper v{case['v']} response to the pending {case['pending']} did not complete it ({f['p']}); a frame "
+                        f"with the same id had been received earlier while another protocol version was active")
+            if case["pending"] is None and len(f["cbs"]) != 1:
+                return (f"a proper v{case['v']} callback frame was delivered to the callbacks {len(f['cbs'])} times; a frame with the "
+                        f"same id had been received earlier while another protocol version was active")
         import bellows.ezsp as E
         v = case["v"]
         data = bytes.fromhex(case["data"])
@@ -323,6 +345,16 @@ class Check(PropertyCheck):
                 return (f"a frame with id {fid:#x} (not defined by version {v}) made the pending command unanswerable: "
                         f"its proper reply afterwards gave {a.get('p')}")
         return None
+
+    def extra_checks(self, rep, tier, rng):
+        import ezsptypes as et
+        bad = et.unified_status_violations()
+        rep.cov["unified_status_fields_checked"] = True
+        if bad:
+            v, name, side, field = bad[0]
+            rep.violation({"input": {"version": v, "command": name, "schema": side, "field": field},
+                           "observed": f"{len(bad)} field(s) of the v14+ tables still have a one-byte legacy status type: {bad[:6]}",
+                           "required": "a frame of the active version is one in that version's wire format: from EZSP v14 on every status travels as the 32-bit unified status, so a frame carrying a one-byte status there is truncated / of another version and must not be dispatched"}, found_input=True, signature="tables:legacy-status-in-v14")
 
     def nontrivial(self, case, obs):
         return case["kind"] != "valid"
